@@ -12,8 +12,10 @@ import (
 	"regexp"
 	"sort"
 	"strings"
+	"unicode/utf16"
 
 	"github.com/zerx-lab/wordZero/pkg/document"
+	"github.com/zerx-lab/wordZero/pkg/markdown"
 
 	"verif/foreign"
 	"verif/inspect"
@@ -64,7 +66,7 @@ func (c06) Nontrivial(c *sim.Case, st *sim.Stats) bool {
 }
 
 var c06storage = []string{"S-torn", "S-zero", "S-flip", "S-dup", "S-drop", "S-swap", "S-stale"}
-var c06producer = []string{"P-cut", "P-empty", "P-missing", "P-misnest", "P-root", "P-place", "P-repeat", "P-nest", "P-vocab", "P-selfclose"}
+var c06producer = []string{"P-cut", "P-empty", "P-missing", "P-misnest", "P-root", "P-place", "P-repeat", "P-nest", "P-vocab", "P-selfclose", "P-lex", "Z-names"}
 var c06reader = []string{"R-short", "R-err", "R-eof", "R-zero", "R-closeerr"}
 
 func (c06) Gen(r *sim.Rand, c *sim.Case, tier string) {
@@ -342,6 +344,94 @@ func producerFault(kind string, data []byte, a, b, variant, n int) []byte {
 		if m := pickMatch(reEmptyPair, a); m != nil {
 			return []byte(s[:m[0]] + reEmptyPair.ReplaceAllString(s[m[0]:m[1]], "<$1$2/>") + s[m[1]:])
 		}
+	case "P-lex":
+		// the same (or nearly the same) information in another lexical form a producer may choose, and lexical irregularities:
+		// the reader must cope with each or refuse it
+		decl := regexp.MustCompile(`^<\?xml[^>]*\?>\s*`)
+		body := decl.ReplaceAllString(s, "")
+		reText := regexp.MustCompile(`>([^<>&]+)</([A-Za-z0-9]+:)?t>`)
+		switch variant % 16 {
+		case 0: // UTF-8 byte order mark
+			return append([]byte{0xEF, 0xBB, 0xBF}, data...)
+		case 1: // UTF-16 little endian with BOM and a matching declaration
+			u := utf16.Encode([]rune(`<?xml version="1.0" encoding="UTF-16"?>` + body))
+			out := []byte{0xFF, 0xFE}
+			for _, c := range u {
+				out = append(out, byte(c), byte(c>>8))
+			}
+			return out
+		case 2: // a declaration that names an encoding the bytes are not in
+			return []byte(`<?xml version="1.0" encoding="` + []string{"UTF-16", "ISO-8859-1", "windows-1252", "x-unknown"}[b%4] + `"?>` + body)
+		case 3: // text in a CDATA section
+			if m := reText.FindAllStringSubmatchIndex(s, -1); len(m) > 0 {
+				x := m[a%len(m)]
+				return []byte(s[:x[2]] + "<![CDATA[" + s[x[2]:x[3]] + "]]>" + s[x[3]:])
+			}
+		case 4: // comments and processing instructions between and inside elements
+			if m := pickMatch(reAnyTag, a); m != nil {
+				return []byte(s[:m[1]] + []string{"<!-- c -->", "<?pi data?>", "<!---->", "<!-- <w:p> -->"}[b%4] + s[m[1]:])
+			}
+		case 5: // character references, legal and not
+			if m := reText.FindAllStringSubmatchIndex(s, -1); len(m) > 0 {
+				x := m[a%len(m)]
+				return []byte(s[:x[2]] + []string{"&#65;", "&#x4e2d;", "&#0;", "&#x1F;", "&#xFFFF;", "&#x110000;", "&#99999999999;", "&#xD800;"}[b%8] + s[x[2]:])
+			}
+		case 6: // an entity nobody declared / a predefined one
+			if m := reText.FindAllStringSubmatchIndex(s, -1); len(m) > 0 {
+				x := m[a%len(m)]
+				return []byte(s[:x[2]] + []string{"&nbsp;", "&amp;", "&lt;&gt;", "&", "&#;", "&quot;&apos;"}[b%6] + s[x[2]:])
+			}
+		case 7: // document type declaration with an internal entity, used in text
+			if m := reText.FindAllStringSubmatchIndex(body, -1); len(m) > 0 {
+				x := m[a%len(m)]
+				return []byte(`<?xml version="1.0"?><!DOCTYPE d [<!ENTITY e "` + strings.Repeat("entity ", 1+n%50) + `">]>` + body[:x[2]] + "&e;" + body[x[2]:])
+			}
+		case 8: // single-quoted attribute values and white space inside tags
+			if m := pickMatch(reValAttr, a); m != nil {
+				at := s[m[0]:m[1]]
+				at = strings.Replace(strings.Replace(at, `="`, " =\n '", 1), `"`, "'", 1)
+				return []byte(s[:m[0]] + at + s[m[1]:])
+			}
+		case 9: // the same attribute twice
+			if m := pickMatch(reValAttr, a); m != nil {
+				return []byte(s[:m[1]] + s[m[0]:m[1]] + s[m[1]:])
+			}
+		case 10: // an attribute value of extreme length
+			if m := pickMatch(reValAttr, a); m != nil {
+				at := s[m[0]:m[1]]
+				if i := strings.Index(at, `"`); i >= 0 {
+					return []byte(s[:m[0]] + at[:i+1] + strings.Repeat("9", n*10) + at[i+1:] + s[m[1]:])
+				}
+			}
+		case 11: // text of extreme length in one run, or a run with very many text elements
+			if m := reText.FindAllStringSubmatchIndex(s, -1); len(m) > 0 {
+				x := m[a%len(m)]
+				if b%2 == 0 {
+					return []byte(s[:x[2]] + strings.Repeat("long text ", n*10) + s[x[2]:])
+				}
+				return []byte(s[:x[3]] + strings.Repeat("</w:t><w:t>x", n) + s[x[3]:])
+			}
+		case 12: // the prefix bound to the main namespace is re-bound on an inner element
+			if m := pickMatch(rePara, a); m != nil {
+				return []byte(s[:m[0]] + `<w:p xmlns:w="urn:other">` + s[m[0]:m[1]] + `</w:p>` + s[m[1]:])
+			}
+		case 13: // elements of the main namespace through a second prefix, or the default namespace
+			if m := pickMatch(rePara, a); m != nil {
+				q := "v:"
+				decl := ` xmlns:v="http://schemas.openxmlformats.org/wordprocessingml/2006/main"`
+				if b%2 == 1 {
+					q, decl = "", ` xmlns="http://schemas.openxmlformats.org/wordprocessingml/2006/main"`
+				}
+				return []byte(s[:m[0]] + "<" + q + "p" + decl + "><" + q + "r><" + q + "t>second prefix</" + q + "t></" + q + "r></" + q + "p>" + s[m[0]:])
+			}
+		case 14: // content after the root element / two roots
+			return []byte(s + []string{"<!-- trailing -->", "trailing text", "<w:document/>", "\x00\x00", "<?pi?>"}[b%5])
+		default: // line breaks and tabs in every form inside text and between elements
+			if m := reText.FindAllStringSubmatchIndex(s, -1); len(m) > 0 {
+				x := m[a%len(m)]
+				return []byte(s[:x[2]] + []string{"\r\n", "\r", "\t\t", "&#13;&#10;", "\u0085", "\u2028"}[b%6] + s[x[2]:])
+			}
+		}
 	case "P-repeat":
 		if m := pickMatch(rePara, a); m != nil {
 			if n > 10000 {
@@ -363,6 +453,144 @@ func producerFault(kind string, data []byte, a, b, variant, n int) []byte {
 		}
 	}
 	return data
+}
+
+// containerFault rewrites the archive so that its directory is unusual but structurally valid: what other ZIP writers, or a
+// careless one, produce around the same parts.
+func containerFault(pkg *inspect.Package, a, b, variant, n int) []byte {
+	names := append([]string{}, pkg.Names...)
+	if len(names) == 0 {
+		return nil
+	}
+	victim := names[a%len(names)]
+	if b%3 != 0 {
+		for _, v := range []string{"word/document.xml", "[Content_Types].xml", "_rels/.rels", "word/_rels/document.xml.rels", "word/styles.xml"} {
+			if _, ok := pkg.Parts[v]; ok && (a+len(v))%3 == 0 {
+				victim = v
+			}
+		}
+	}
+	var buf bytes.Buffer
+	zw := zip.NewWriter(&buf)
+	put := func(name string, data []byte, method uint16) {
+		w, err := zw.CreateHeader(&zip.FileHeader{Name: name, Method: method})
+		if err == nil {
+			_, _ = w.Write(data)
+		}
+	}
+	all := func(rename func(string) string, method uint16) {
+		for _, nm := range names {
+			put(rename(nm), pkg.Parts[nm], method)
+		}
+	}
+	id := func(x string) string { return x }
+	switch variant % 14 {
+	case 0: // the same name twice, different content (first or second wins?)
+		for _, nm := range names {
+			if nm == victim {
+				if b%2 == 0 {
+					put(nm, []byte("<?xml version=\"1.0\"?><x/>"), zip.Deflate)
+				} else {
+					put(nm, nil, zip.Deflate)
+				}
+			}
+			put(nm, pkg.Parts[nm], zip.Deflate)
+			if nm == victim && b%4 >= 2 {
+				put(nm, pkg.Parts[nm][:len(pkg.Parts[nm])/2], zip.Deflate)
+			}
+		}
+	case 1: // another letter case for one name
+		all(func(x string) string {
+			if x == victim {
+				if b%2 == 0 {
+					return strings.ToUpper(x)
+				}
+				return strings.Title(x)
+			}
+			return x
+		}, zip.Deflate)
+	case 2: // backslashes as separators
+		all(func(x string) string { return strings.ReplaceAll(x, "/", "\\") }, zip.Deflate)
+	case 3: // leading slash, or ./
+		all(func(x string) string { return []string{"/", "./", "//"}[b%3] + x }, zip.Deflate)
+	case 4: // explicit directory entries, before or after their content
+		if b%2 == 0 {
+			put("word/", nil, zip.Store)
+			put("_rels/", nil, zip.Store)
+		}
+		all(id, zip.Deflate)
+		if b%2 == 1 {
+			put("word/", nil, zip.Store)
+			put("word/media/", nil, zip.Store)
+		}
+	case 5: // a directory where a part is expected
+		for _, nm := range names {
+			if nm == victim {
+				put(nm+"/", nil, zip.Store)
+				if b%2 == 0 {
+					put(nm+"/inner.xml", pkg.Parts[nm], zip.Deflate)
+				}
+				continue
+			}
+			put(nm, pkg.Parts[nm], zip.Deflate)
+		}
+	case 6: // everything stored, not deflated
+		all(id, zip.Store)
+	case 7: // the content-types part and the package relationships last
+		for _, nm := range names {
+			if nm != "[Content_Types].xml" && nm != "_rels/.rels" {
+				put(nm, pkg.Parts[nm], zip.Deflate)
+			}
+		}
+		put("_rels/.rels", pkg.Parts["_rels/.rels"], zip.Deflate)
+		put("[Content_Types].xml", pkg.Parts["[Content_Types].xml"], zip.Deflate)
+	case 8: // an archive comment
+		all(id, zip.Deflate)
+		_ = zw.SetComment(strings.Repeat("comment PK\x05\x06 ", 1+n%100))
+	case 9: // parts nobody declared: very long name, empty name, odd names
+		all(id, zip.Deflate)
+		put(strings.Repeat("d/", 200)+"x.xml", []byte("<x/>"), zip.Deflate)
+		put("", []byte("nameless"), zip.Store)
+		put("word/../evil.xml", []byte("<x/>"), zip.Deflate)
+		put("word/document.xml.bak", pkg.Parts["word/document.xml"], zip.Deflate)
+		put("[Content_Types].xml.rels", []byte("<x/>"), zip.Deflate)
+	case 10: // an entry with a compression method nobody implements
+		all(id, zip.Deflate)
+		if w, err := zw.CreateRaw(&zip.FileHeader{Name: "word/odd.bin", Method: 99, CompressedSize64: 4, UncompressedSize64: 4}); err == nil {
+			_, _ = w.Write([]byte("abcd"))
+		}
+	case 11: // the victim claims a compression method nobody implements / is marked encrypted
+		for _, nm := range names {
+			if nm != victim {
+				put(nm, pkg.Parts[nm], zip.Deflate)
+				continue
+			}
+			h := &zip.FileHeader{Name: nm, Method: []uint16{12, 14, 93, 99}[b%4], CRC32: crc32.ChecksumIEEE(pkg.Parts[nm]), CompressedSize64: uint64(len(pkg.Parts[nm])), UncompressedSize64: uint64(len(pkg.Parts[nm]))}
+			if b%5 == 4 {
+				h.Method, h.Flags = zip.Store, 0x1
+			}
+			if w, err := zw.CreateRaw(h); err == nil {
+				_, _ = w.Write(pkg.Parts[nm])
+			}
+		}
+	case 12: // a wrong checksum in the directory for one stored entry
+		for _, nm := range names {
+			if nm != victim {
+				put(nm, pkg.Parts[nm], zip.Deflate)
+				continue
+			}
+			h := &zip.FileHeader{Name: nm, Method: zip.Store, CRC32: crc32.ChecksumIEEE(pkg.Parts[nm]) ^ 1, CompressedSize64: uint64(len(pkg.Parts[nm])), UncompressedSize64: uint64(len(pkg.Parts[nm]))}
+			if w, err := zw.CreateRaw(h); err == nil {
+				_, _ = w.Write(pkg.Parts[nm])
+			}
+		}
+	default: // junk in front of the archive (self-extractor stub): offsets in the directory are then relative
+		all(id, zip.Deflate)
+		_ = zw.Close()
+		return append([]byte(strings.Repeat("MZ stub ", 1+n%500)), buf.Bytes()...)
+	}
+	_ = zw.Close()
+	return buf.Bytes()
 }
 
 type faultyReader struct {
@@ -475,6 +703,26 @@ func c06sweep(d *document.Document, r *sim.Rand, st *sim.Stats) {
 			_, _ = t.GetCellRange(0, 0, rows-1, cols-1)
 		}
 		_, _ = t.FindCellsByText("x", false)
+		if cp := t.CopyTable(); cp != nil {
+			_ = cp.GetRowCount()
+		}
+	}
+	// readers of the whole document: the Markdown exporter, and the template engine taking the document as a template
+	if r.Chance(0.5) {
+		_, _ = markdown.NewExporter(markdown.DefaultExportOptions()).ExportToString(d, nil)
+		st.Probe("exported_to_markdown")
+	}
+	if r.Chance(0.5) {
+		eng := document.NewTemplateEngine()
+		if _, err := eng.LoadTemplateFromDocument("opened", d); err == nil {
+			data := document.NewTemplateData()
+			data.SetVariable("name", "value")
+			data.SetList("items", []interface{}{map[string]interface{}{"name": "a"}, map[string]interface{}{"name": "b"}})
+			if rd, err := eng.RenderTemplateToDocument("opened", data); err == nil && rd != nil {
+				_, _ = rd.ToBytes()
+				st.Probe("rendered_as_template")
+			}
+		}
 	}
 	st.Probe("accessor_sweeps")
 	// ---- editing
@@ -701,6 +949,13 @@ func applyFault(op sim.Op, cur []byte, saves [][]byte, st *sim.Stats) []byte {
 		}
 		st.Fault(op.K)
 		return rezipLying(names, pkg.Parts, victim, size)
+	}
+	if op.K == "Z-names" {
+		if out2 := containerFault(pkg, a, b, variant, n); out2 != nil {
+			st.Fault(op.K)
+			return out2
+		}
+		return out
 	}
 	part := op.Str(0)
 	if _, ok := pkg.Parts[part]; !ok || part == "any" {
